@@ -533,12 +533,48 @@ func genContendScenario(r *rng) *Scenario {
 		sc.Tasks = append(sc.Tasks, ops)
 	}
 	sc.Sim = genSimConfig(r)
+	sc.ColdFirst = r.chance(0.5)
+	return sc
+}
+
+// genRegexScenario: every task evaluates match() with patterns the process has not
+// compiled before (some shared between tasks): anything memoised per pattern is
+// inserted and looked up concurrently.
+func genRegexScenario(r *rng, cold bool) *Scenario {
+	sc := &Scenario{ColdFirst: true}
+	k := 2 + r.intn(3)
+	pats := []string{
+		fmt.Sprintf("^[a-z%d]{0,%d}h.*$", r.intn(10), 1+r.intn(40)),
+		fmt.Sprintf("^h[^%d]{1,%d}o$", r.intn(10), 2+r.intn(40)),
+		fmt.Sprintf("(é|l){%d,%d}", r.intn(3), 3+r.intn(40)),
+	}
+	for t := 0; t < k; t++ {
+		var ops []Op
+		n := 1 + r.intn(3)
+		for i := 0; i < n; i++ {
+			src := fmt.Sprintf("match(%q, s) || match(%q, o.name)", pats[r.intn(len(pats))], pats[r.intn(len(pats))])
+			p := Prog{Src: src, Env: []string{"map", "struct"}[r.intn(2)]}
+			if r.chance(0.5) {
+				ops = append(ops, Op{K: "eval", Prog: &p})
+			} else {
+				spec := EngineSpec{backends[r.intn(4)], false}
+				ops = append(ops, Op{K: "engine", Spec: &spec})
+				ops = append(ops, Op{K: "compile", E: len(ops) - 1, Prog: &p})
+				ops = append(ops, Op{K: "invoke", C: len(ops) - 1, Env: p.Env, EnvSh: r.chance(0.5)})
+			}
+		}
+		sc.Tasks = append(sc.Tasks, ops)
+	}
+	sc.Sim = genSimConfig(r)
 	return sc
 }
 
 func genScenario(r *rng, cold bool) *Scenario {
 	if r.chance(0.12) {
 		return genTimeScenario(r, cold)
+	}
+	if r.chance(0.08) {
+		return genRegexScenario(r, cold)
 	}
 	if !cold && r.chance(0.12) {
 		return genContendScenario(r)
@@ -560,7 +596,10 @@ func genScenario(r *rng, cold bool) *Scenario {
 			}
 		}
 	}
-	sc.ColdFirst = cold
+	// concurrent phase first (the solo oracle afterwards) for half of the scenarios: the solo
+	// runs would otherwise warm every value-keyed cache (patterns, zone names, source texts)
+	// before the tasks meet
+	sc.ColdFirst = cold || r.chance(0.5)
 	var generic []string
 	if r.chance(0.5) {
 		generic = []string{genericSrcs[r.intn(len(genericSrcs))], genericSrcs[r.intn(len(genericSrcs))]}
